@@ -86,6 +86,35 @@ def check(ctx):
     ctx.instance('C10.R7', 'enumerated value length: Python and C on %d cells' % len(pts), 'ok' if diff is None else 'VIOLATION', node=pyf, file=GEN)
     if diff is not None:
         ctx.violation('C10.R7', GEN, pyf, Model.qual(pyf), 'for the enumeration value %d: Python %s (expected %s), C %s (expected %s)' % diff, stmt='enumerated value length table')
+    # (b') a *static* encoded length of an ENUMERATED (used for the length prefix of an extension addition) is right for every value of the enumeration:
+    #      get_encoded_enumerated_length evaluated on enumerations of boundary values; a result made of integers only must equal the X.696 11 length of each value
+    #      (1 octet for 0..127, otherwise 1 + the octets of the value); a result with a C expression is the run-time helper checked under (b)
+    gel = g.methods.get('get_encoded_enumerated_length')
+    if gel is not None:
+        def x696_enum_len(v):
+            return 1 if 0 <= v < 128 else 1 + (1 if -128 <= v < 128 else 2 if -32768 <= v < 32768 else 3 if -8388608 <= v < 8388608 else 4)
+        n_static = n_rt = 0
+        badb = None
+        for vals in ((0,), (5,), (127,), (128,), (-1,), (-128,), (-129,), (0, 127), (-1, 5), (-128, 127), (-5, -1), (128, 255), (200, 300), (32767,), (32768,), (-32768, -1), (70000,), (-1, -2, -3)):
+            env = {flow.param_names(gel)[1]: evalexpr.Obj(value_to_data={v: 'e%d' % i for i, v in enumerate(vals)}, data_to_value={'e%d' % i: v for i, v in enumerate(vals)}, name='x')}
+            try:
+                res, _env = evalexpr.run_function(gel, env)
+            except (evalexpr.Unsupported, evalexpr.Raised, KeyError, TypeError, AttributeError):
+                n_rt += 1        # the path that defers to the C helper (context manager, location strings): not a static result
+                continue
+            if isinstance(res, (list, tuple)) and all(isinstance(x, int) and not isinstance(x, bool) for x in res):
+                n_static += 1
+                wrong = [v for v in vals if x696_enum_len(v) != sum(res)]
+                if wrong and badb is None:
+                    badb = (vals, sum(res), wrong[0], x696_enum_len(wrong[0]))
+            else:
+                n_rt += 1
+        ctx.instance('C10.R7', 'get_encoded_enumerated_length: %d enumerations with a static length evaluated, %d defer to the C helper' % (n_static, n_rt),
+                     'VIOLATION' if badb else 'ok', nontrivial=True, node=gel, file=GEN)
+        if badb:
+            ctx.violation('C10.R7', GEN, gel, Model.qual(gel),
+                          'for ENUMERATED with the values %s the generator uses the static encoded length %d, but the value %d is encoded in %d octets (X.696 11: one octet only for 0..127): '
+                          'the length prefix of an extension addition holding it is wrong, so an older decoder skips the wrong number of octets' % badb, stmt='static enumerated length')
     # (c) value_length vs minimum_uint_length (up to 4 octets)
     vl = model.func(UTIL, 'Generator.value_length')
     cf3 = chelpers.find_func(model, FUN, 'minimum_uint_length')
@@ -244,3 +273,13 @@ MUTANTS.append(dict(name='presence mask buffers of equal size shared between nes
             if present_mask_length not in self.present_masks:
                 self.present_masks[present_mask_length] = self.add_unique_variable(fmt, 'present_mask')
             unique_present_mask = self.present_masks[present_mask_length]""", expect='C10.R11'))
+
+MUTANTS.append(dict(name='static ENUMERATED length from the Python value length (1 for -128..127)', file=GEN,
+                    old="""    def get_encoded_enumerated_length(self, type_):
+""", new="""    def get_encoded_enumerated_length(self, type_):
+        value_lengths = sorted(set(self.get_enumerated_value_length(value) for value in type_.value_to_data))
+
+        if value_lengths == [1]:
+            return [1]
+
+""", expect='C10.R7'))
